@@ -532,6 +532,32 @@ pub fn c13(tier: &str, seed: u64) {
       }
     }
   }
+  // a LONG run of proofs in one process (thousands: beyond any pool or counter a nonce source might
+  // cycle through), all nonce commitments distinct
+  {
+    let server = Server::new(vec![9]).expect("Server::new");
+    let pkb = server.get_public_key().serialize_to_bincode().unwrap();
+    let pos = pk_entry_pos(&pkb, 9).unwrap();
+    let pkv = dec(&pkb[..32]) + dec(&pkb[pos + 1..pos + 33]);
+    let nrun = if q { 2300 } else { 9000 };
+    let mut first: HashMap<Vec<u8>, usize> = HashMap::new();
+    for i in 0..nrun {
+      let (bp, _) = Client::blind(&(i as u32).to_le_bytes());
+      let ev = server.eval(&bp, 9, true).expect("eval");
+      let (c, s_) = proof_cs(ev.proof.as_ref().unwrap());
+      let t2 = (s_ * BASE + c * pkv).compress().as_bytes().to_vec();
+      if let Some(j) = first.insert(t2.clone(), i) {
+        fail("proof_nonce_repeated", &[("t2", hex(&t2)), ("what", format!("proof #{} of a run of {} on one server repeats the nonce commitment of proof #{}", i, nrun, j))]);
+        break;
+      }
+      if !commitments.insert(t2) {
+        fail("proof_nonce_repeated", &[("what", format!("proof #{} of the long run repeats a nonce commitment made earlier in this process", i))]);
+        break;
+      }
+    }
+    case(true);
+    stat_n("c13.long_run_proofs", nrun as u64);
+  }
   // proofs made on several OS threads (unnamed spawn workers, and workers that share one name like a
   // runtime's pool): the k-th proof of every thread has its own nonce
   {
